@@ -54,6 +54,7 @@ impl DynError {
     pub fn source(&self) -> (r: Option<&DynError>)
         ensures r is None <==> self.src is None, r matches Some(x) ==> self.src matches Some(b) && *b == *x
     { unimplemented!() }
+    pub fn is<T: ErrDowncast>(&self) -> (r: bool) ensures r == (T::pick(*self) is Some) { self.downcast_ref::<T>().is_some() }
     // A-fmt-04: Display of an error is some text (unconstrained)
     #[verifier::external_body]
     pub fn to_string(&self) -> (r: String) { unimplemented!() }
@@ -139,6 +140,7 @@ pub open spec fn box_meaning(e: DynError) -> Option<Meaning> {
 RSHIMS = r"""
 // ---- tower / futures / pin-project as the RecoverError layer uses them ----
 pub use http::Response;
+pub type BoxError = Box<DynError>;
 // A-core-26: `impl<T> From<T> for T` is the identity (the `err.into()` of an error that already is a boxed error)
 pub assume_specification<T>[<T as From<T>>::from](t: T) -> (r: T) ensures r == t;
 // tower_service::Service with a ghost log of the requests the service has been called with (A-tower-01)
@@ -242,9 +244,15 @@ impl Status {
     W = 'impl Status'
     u.fn(S, 'new', within=W, nth=0, sig_edits=[msg_string], ensures=[
         Clause('N1_a_new_status_has_this_code_and_message_and_nothing_else', 'r.code == code && r.message@ == message.text() && r.details@.len() == 0 && r.metadata.headers@ == %s && r.source is None' % EMPTYMD)])
-    for ctor, code in (('cancelled', 'Cancelled'), ('unavailable', 'Unavailable')):
+    for ctor, code in common.CTORS:
         u.fn(S, ctor, within=W, nth=0, sig_edits=[msg_string], ensures=[
             Clause('N2_code_%s_with_this_message' % code, 'r.code == Code::%s && r.message@ == message.text() && r.details@.len() == 0 && r.metadata.headers@ == %s' % (code, EMPTYMD))])
+    u.fn(S, 'with_details_and_metadata', within=W, sig_edits=[msg_string], ensures=[
+        Clause('N3_stores_its_arguments', 'r.code == code && r.message@ == message.text() && r.details == details && r.metadata == metadata')])
+    u.fn(S, 'with_details', within=W, sig_edits=[msg_string], ensures=[
+        Clause('N3_stores_its_arguments', 'r.code == code && r.message@ == message.text() && r.details == details && r.metadata.headers@ == %s' % EMPTYMD)])
+    u.fn(S, 'with_metadata', within=W, sig_edits=[msg_string], ensures=[
+        Clause('N3_stores_its_arguments', 'r.code == code && r.message@ == message.text() && r.details@.len() == 0 && r.metadata == metadata')])
     H2K = 'err.reason is Some && h2_constrained(err.reason->Some_0.0)'
     u.fn(S, 'code_from_h2', within=W, ensures=[
         Clause('T_h2_reset_table', '%s ==> r == code_of_h2(err.reason->Some_0.0)' % H2K),
